@@ -286,9 +286,9 @@ Transpose(a, S, conj, ow) ==
     /\ "Transpose" \in Ops
     /\ Closed(pool[a])
     \* conjugating only some cores of a complex train is representation dependent (not a
-    \* function of the dense value): the dense contract covers the full conjugate transpose
-    \* and partial transposes of real data
-    /\ (conj => (S = 1..Order(pool[a]) \/ IsRealD(pool[a].d)))
+    \* function of the dense value, which may even be real while the cores are complex): the dense
+    \* contract covers the full conjugate transpose and partial transposes without conjugation
+    /\ (conj => S = 1..Order(pool[a]))
     /\ (Lean => S = 1..Order(pool[a]))
     /\ LET r == Obj(DTranspose(pool[a].d, S, conj), pool[a].rk)
            ev == [op |-> "Transpose", a |-> a, cores |-> {k - 1 : k \in S},
